@@ -299,6 +299,21 @@ func (d DataSpec) Bytes() []byte {
 				starts = starts[len(starts)-6000:]
 			}
 		}
+	case "units258": // (used by C02's phase sweep only, not drawn by GenData) P1 fresh bytes, then units of [one fresh byte + 258 zero bytes] (literal, maximal match at distance 259,
+		// both with short codes: they share one multi-symbol table entry of the decoder), then P2 fresh bytes. Each unit
+		// advances the output by 259, so sweeping P1 over 259 values puts such an entry at every output offset.
+		for i := 0; i < d.P1 && len(b) < n; i++ {
+			b = append(b, byte(1+r.Intn(255)))
+		}
+		for len(b)+d.P2 < n {
+			b = append(b, byte(1+r.Intn(255)))
+			for i := 0; i < 258 && len(b)+d.P2 < n; i++ {
+				b = append(b, 0)
+			}
+		}
+		for len(b) < n {
+			b = append(b, byte(1+r.Intn(255)))
+		}
 	case "logcopies": // short literal runs and copies whose length and distance are log-uniform: every length/distance code and extra-bit width
 		for len(b) < n {
 			if len(b) > 4 && r.Intn(3) > 0 {
